@@ -29,7 +29,7 @@ pub enum Op {
     /// println("") on a member bar: an empty log line
     BarPrintlnEmpty(u8),
     MpPrintln,
-    /// one println of three lines
+    /// one println of three lines, the middle one empty
     MpPrintln3,
     MpClear,
     MpSuspend,
@@ -489,7 +489,8 @@ impl Cfg {
             }
             Op::MpPrintln3 => {
                 let n = rf.logs.len();
-                let _ = wd.mp.println(format!("{}\n{}\n{}", self.log_text(n, "L"), self.log_text(n + 1, "L"), self.log_text(n + 2, "L")));
+                // the middle line is empty
+                let _ = wd.mp.println(format!("{}\n\n{}", self.log_text(n, "L"), self.log_text(n + 2, "L")));
             }
             Op::MpClear => {
                 let _ = wd.mp.clear();
@@ -646,8 +647,8 @@ impl Cfg {
                 vanishers(rf);
             }
             Op::MpPrintln3 => {
-                for _ in 0..3 {
-                    let t = self.log_text(rf.logs.len(), "L");
+                for k in 0..3 {
+                    let t = if k == 1 { String::new() } else { self.log_text(rf.logs.len(), "L") };
                     rf.logs.push(t);
                 }
                 must_paint = true;
@@ -678,6 +679,10 @@ impl Cfg {
             }
             Op::Remove(x) => {
                 let b = &mut rf.bars[*x as usize];
+                // "removing a bar makes its lines disappear": rows of it that are on screen must be repainted away
+                if !b.removed && b.shown.as_ref().map_or(false, |s| !s.is_empty()) {
+                    must_paint = true;
+                }
                 b.removed = true;
                 b.pending = None;
                 rf.order.retain(|y| y != x);
